@@ -162,6 +162,8 @@ type c19Pod struct {
 	patched  *corev1.Pod
 	versions []*corev1.Pod
 	echoed   int
+
+	beforeRsv, afterRsv bool // a bound version reached the restarted scheduler before / after its reservation
 }
 
 func (p *c19Pod) latest() *corev1.Pod { return p.versions[len(p.versions)-1] }
@@ -339,7 +341,26 @@ func c19Compare(c *kit.Case, where string, live, replay *reservationCache, rsvs 
 	if a, b := c19Index(live.allocatedOnNode), c19Index(replay.allocatedOnNode); fmt.Sprint(a) != fmt.Sprint(b) {
 		c.Fail("C19/reservation/allocated-index", "%s: allocated-on-node index is %v in the live cache and %v in the restarted one", where, a, b)
 	}
-	if a, b := c19Index(live.matchableOnNode), c19Index(replay.matchableOnNode); fmt.Sprint(a) != fmt.Sprint(b) {
+	// The matchable index is refreshed only by reservation events, not when a pod is entered or removed: for an
+	// allocate-once reservation (matchable only while it has no pod) it is stale until the next reservation event, in
+	// either direction, in the live cache as well as in the restarted one, depending on the order of events. It is
+	// therefore compared for the reservations whose matchability does not depend on their pods.
+	stale := map[string]bool{}
+	for _, x := range rsvs {
+		if x.obj.Spec.AllocateOnce == nil || *x.obj.Spec.AllocateOnce {
+			stale[string(x.obj.UID)] = true
+		}
+	}
+	matchable := func(m map[string]map[types.UID]struct{}) []string {
+		var out []string
+		for _, e := range c19Index(m) {
+			if !stale[e[strings.Index(e, "/")+1:]] {
+				out = append(out, e)
+			}
+		}
+		return out
+	}
+	if a, b := matchable(live.matchableOnNode), matchable(replay.matchableOnNode); fmt.Sprint(a) != fmt.Sprint(b) {
 		c.Fail("C19/reservation/matchable-index", "%s: matchable-on-node index is %v in the live cache and %v in the restarted one", where, a, b)
 	}
 	if a, b := c19Index(live.reservationsOnNode), c19Index(replay.reservationsOnNode); fmt.Sprint(a) != fmt.Sprint(b) {
@@ -351,6 +372,7 @@ type c19Event struct {
 	kind     string
 	old, new *corev1.Pod
 	pod      *c19Pod
+	rsv      *c19Rsv // the event is the add of this reservation (race mode)
 }
 
 func TestVerifC19ReservationRestart(t *testing.T) {
@@ -634,9 +656,14 @@ func TestVerifC19ReservationRestart(t *testing.T) {
 			nmR := newNominator(nil, nil)
 			rhR := &reservationEventHandler{cache: cacheR, rrNominator: nmR}
 			phR := &podEventHandler{cache: cacheR, nominator: nmR}
-			for _, i := range r.Perm(len(rsvs)) {
-				x := rsvs[i]
+			// Cross-kind order: in 75 % of the cases the reservations first. In 25 % ("race") the add of some
+			// reservations falls among the pod adds: the pod informer factory and the Koordinator factory are started
+			// together (cmd/koord-scheduler/app/server.go) and the plugin's constructor only registers the handlers.
+			race := r.Pct(25)
+			known := map[types.UID]bool{}
+			addRsv := func(x *c19Rsv) {
 				rhR.OnAdd(x.obj, true)
+				known[x.obj.UID] = true
 				c.Op("restart informer: add reservation %s (phase %s)", x.obj.Name, x.obj.Status.Phase)
 				if r.Pct(20) {
 					rhR.OnAdd(x.obj, true)
@@ -650,6 +677,17 @@ func TestVerifC19ReservationRestart(t *testing.T) {
 				}
 			}
 			var queues [][]c19Event
+			if race {
+				c.Count("race_cases", 1)
+			}
+			for _, i := range r.Perm(len(rsvs)) {
+				if race && r.Pct(60) {
+					queues = append(queues, []c19Event{{kind: "reservation_add_among_pods", rsv: rsvs[i]}})
+					c.Count("race_reservations_added_among_pods", 1)
+					continue
+				}
+				addRsv(rsvs[i])
+			}
 			qIndex := map[*c19Pod]int{}
 			survivorsPer := map[types.UID]int{}
 			for _, p := range pods {
@@ -686,6 +724,19 @@ func TestVerifC19ReservationRestart(t *testing.T) {
 				queues = append(queues, q)
 			}
 			apply := func(ev c19Event) {
+				if ev.rsv != nil {
+					addRsv(ev.rsv)
+					c.Count("replay_events_"+ev.kind, 1)
+					return
+				}
+				if ev.kind != "delete" && ev.pod.rUID != "" && (ev.pod.state == c19Bound || ev.pod.state == c19Terminated) {
+					if known[ev.pod.rUID] {
+						ev.pod.afterRsv = true
+					} else {
+						ev.pod.beforeRsv = true
+						c.Count("race_events_delivered_before_reservation", 1)
+					}
+				}
 				switch ev.kind {
 				case "add", "duplicate_add":
 					phR.OnAdd(ev.new, true)
@@ -741,9 +792,41 @@ func TestVerifC19ReservationRestart(t *testing.T) {
 				return nil
 			}
 			ntail := kit.Pick(r, []int{0, 0, 1, 2, 3, 5})
+			// lostBeforeReservation: a pod whose every event so far reached the restarted scheduler before its
+			// reservation is not entered in the ledger (reservationCache.updatePod finds no ReservationInfo) and nothing
+			// brings it back. Reported under its own signature, and only that: the pod is then re-delivered by a
+			// harness-made no-op update and the full comparison that follows must find both caches equal.
+			lostBeforeReservation := func() {
+				for _, p := range pods {
+					if p.state != c19Bound || p.rUID == "" || !p.beforeRsv || p.afterRsv {
+						continue
+					}
+					cacheR.lock.RLock()
+					ri := cacheR.reservationInfos[p.rUID]
+					held := ri != nil && ri.AssignedPods[p.pod.UID] != nil
+					cacheR.lock.RUnlock()
+					if ri == nil {
+						continue // the reservation completed: nobody holds the pod
+					}
+					c.Count("race_pods_delivered_only_before_reservation", 1)
+					if held {
+						c.Count("race_pods_delivered_only_before_reservation_kept", 1)
+						p.afterRsv = true
+						continue
+					}
+					c.Count("race_pods_delivered_only_before_reservation_lost", 1)
+					c.Report("C19/reservation/replay/assignment-lost-when-pod-delivered-before-reservation", "pod %s is bound and assigned to reservation %s (%s) by its reservation-allocated annotation; the restarted scheduler received the pod before the Reservation object (pod and reservation informers are started together), reservationCache.updatePod found no ReservationInfo and dropped the assignment, and nothing re-delivers the pod: the amount it takes (%s) is free in the reservation after the restart", p.name, p.rName, p.rUID, c19RL(p.req))
+					nv := p.latest().DeepCopy()
+					nv.ResourceVersion += "5"
+					phR.OnUpdate(p.latest(), nv)
+					p.afterRsv = true
+					c.Op("[harness] re-delivered %s by a no-op update after reporting the lost assignment", p.name)
+				}
+			}
 			if r.Bool() {
 				deliver()
 				c.Op("---- comparison after the snapshot")
+				lostBeforeReservation()
 				c19Compare(c, "after the snapshot", cacheL, cacheR, rsvs, pods)
 				for i := 0; i < ntail; i++ {
 					if ev := tail(); ev != nil {
@@ -761,6 +844,7 @@ func TestVerifC19ReservationRestart(t *testing.T) {
 				deliver()
 			}
 			c.Op("---- final comparison")
+			lostBeforeReservation()
 			c19Compare(c, "final", cacheL, cacheR, rsvs, pods)
 			two := false
 			for _, k := range survivorsPer {
